@@ -27,6 +27,8 @@ RULE = (
 ASSUMPTIONS = [
     'only calls that raise xml.dom.DOMException are in scope; an accepted call or another exception type is classified separately (crash = reported)',
     'arguments listed as late=True have a non-empty acceptable prefix',
+    'plain data attributes without a setter (CSSMediaRule.name) are not counted as mutators of a read-only object; objects that merely belong to a read-only object (a Property of a read-only block) are not themselves "created read-only"',
+    'the snapshot serialises three times: lossless preferences, variables resolved, default preferences (a part that silently stopped being well-formed vanishes there)',
 ]
 
 BASES = [
@@ -64,6 +66,12 @@ def snapshot(sheet):
     cssutils.ser.prefs.resolveVariables = False
     try:
         out = [sheet.cssText, sheet.encoding, tuple(sorted(dict(sheet.namespaces.items()).items())), type(sheet.namespaces).__name__]
+        cssutils.ser.prefs.resolveVariables = True
+        out.append(sheet.cssText)
+        cssutils.ser.prefs.resolveVariables = False
+        cssutils.ser.prefs.keepEmptyRules = False
+        out.append(sheet.cssText)  # what an ordinary serialisation shows (a part that stopped being well-formed disappears here)
+        cssutils.ser.prefs.keepEmptyRules = True
         for r in walk(sheet.cssRules):
             item = [r.type, r.cssText, r.parentStyleSheet is sheet, None if r.parentRule is None else r.parentRule.type]
             if r.type == R.STYLE_RULE:
@@ -101,7 +109,8 @@ def M():
     return [
         ('sheet.cssText=', lambda s: s, setter('cssText'),
          [('a { top: 0 } zz|b { left: 0 }', True), ('a { top: 0 } @import "late.css";', True), ('a { top: 0 } b,,c { left: 0 }', True),
-          ('@namespace q "u"; q|a { top: 0 } b { ( }', True), ('a {', False), ('@charset "utf-8"; a { top: 0 } @charset "ascii";', True)]),
+          ('@namespace q "u"; q|a { top: 0 } b { ( }', True), ('a {', False), ('@charset "utf-8"; a { top: 0 } @charset "ascii";', True),
+          ('@variables { m: 1px; c: red } y { left: var(m) } @variables { b: 2px }', True)]),
         ('sheet.insertRule', lambda s: s, lambda t, a: t.insertRule(*a),
          [(('@import "x";', 99), False), (('a {', 0), False), (('@charset "utf-8";', 1), False), (('zz|a { top: 0 }', 0), False),
           (('a { top: 0 }', -1), False), (('@namespace n "u";', 99), False), (('a { top: 0 } b { left: 0 }', 0), True),
@@ -142,10 +151,11 @@ def M():
          [('attr(t', True), ('attr(t))', True), ('attr(;)', True), ('1px', False)]),
         ('mediaRule.cssText=', media, setter('cssText'),
          [('@media print and { a { top: 0 } }', True), ('@media tv { a { top: 0 } @import "x"; }', True), ('@media tv { a { top: 0 } b,,c { left: 0 } }', True),
-          ('@media tv { a { top: 0 }', True), ('a { top: 0 }', False), ('@media tv { zz|a { top: 0 } }', True), ('@media tv, , print { a {} }', True)]),
+          ('@media tv { a { top: 0 }', True), ('a { top: 0 }', False), ('@media tv { zz|a { top: 0 } }', True), ('@media tv, , print { a {} }', True),
+          ('@media braille { b { color: blue } } c {}', True), ('@media braille "name" x { b {} }', True), ('@media braille "name" ;', True)]),
         ('mediaRule.insertRule', media, lambda t, a: t.insertRule(*a), [(('@import "x";', 0), False), (('a {', 0), False), (('a { top: 0 }', 99), False), (('@font-face { font-family: "F" }', 0), False)]),
         ('mediaRule.deleteRule', media, lambda t, a: t.deleteRule(a), [(99, False)]),
-        ('media.mediaText=', lambda s: media(s).media, setter('mediaText'), [('tv, print and', True), ('tv, 1x', True), ('tv,, print', True), ('', False), ('tv and (color', True)]),
+        ('media.mediaText=', lambda s: media(s).media, setter('mediaText'), [('tv, print and', True), ('tv, 1x', True), ('tv,, print', True), ('', False), ('tv and (color', True), ('/* only a comment */', False)]),
         ('media.appendMedium', lambda s: media(s).media, lambda t, a: t.appendMedium(a), [('1x', False), ('print and', True), ('tv, print', True), ('all', False), ('ALL', False), ('tv', False), ('print', False)]),
         ('media.deleteMedium', lambda s: media(s).media, lambda t, a: t.deleteMedium(a), [('braille', False), ('nope', False), ('print and (color)', False)]),
         ('media2.appendMedium', lambda s: [r for r in walk(s.cssRules) if r.type == R.MEDIA_RULE][1].media, lambda t, a: t.appendMedium(a),
@@ -159,7 +169,8 @@ def M():
         ('pageRule.selectorText=', page, setter('selectorText'), [(':first:left:', True), ('a b', True), ('1x', False)]),
         ('pageRule.insertRule', page, lambda t, a: t.insertRule(*a), [(('a { top: 0 }', 0), False), (('@top-left { x: y }', 99), False), (('@media print { a {} }', 0), False)]),
         ('importRule.cssText=', lambda s: first(s, R.IMPORT_RULE), setter('cssText'), [('@import "x" print and;', True), ('@import;', False), ('@import "x" "y" "z";', True), ('a { }', False)]),
-        ('namespaceRule.cssText=', lambda s: first(s, R.NAMESPACE_RULE), setter('cssText'), [('@namespace p;', True), ('@namespace 1x "u";', False), ('@namespace p "u" x;', True), ('a {}', False)]),
+        ('namespaceRule.cssText=', lambda s: first(s, R.NAMESPACE_RULE), setter('cssText'), [('@namespace p;', True), ('@namespace 1x "u";', False), ('@namespace p "u" x;', True), ('a {}', False),
+                                 ('@namespace q "http://other.example";', True)]),
         ('namespaceRule.namespaceURI=', lambda s: first(s, R.NAMESPACE_RULE), setter('namespaceURI'), [('http://other.example', False)]),
         ('namespaceRule.prefix=', lambda s: first(s, R.NAMESPACE_RULE), setter('prefix'), [('1x', False), ('a b', True)]),
         ('charsetRule.cssText=', lambda s: first(s, R.CHARSET_RULE), setter('cssText'), [('@charset "x-nope";', True), ('@charset utf-8;', False), ('@charset "utf-8"', True), ('a {}', False)]),
@@ -167,8 +178,23 @@ def M():
         ('fontFaceRule.cssText=', lambda s: first(s, R.FONT_FACE_RULE), setter('cssText'), [('@font-face { font-family: "F"', True), ('@font-face x { }', True), ('a {}', False)]),
         ('unknownRule.cssText=', lambda s: first(s, R.UNKNOWN_RULE), setter('cssText'), [('@foo { (', True), ('a {}', False), ('@foo bar', True)]),
         ('comment.cssText=', lambda s: first(s, R.COMMENT), setter('cssText'), [('/* unclosed', False), ('a {}', False), ('/* a */ /* b */', True)]),
-        ('marginRule.cssText=', lambda s: first(s, R.MARGIN_RULE), setter('cssText'), [('@top-left { x: (', True), ('@nope { x: y }', False), ('a {}', False)]),
+        ('marginRule.cssText=', lambda s: first(s, R.MARGIN_RULE), setter('cssText'), [('@top-left { x: (', True), ('@nope { x: y }', False), ('a {}', False), ('@top-left {x:}', True)]),
+        ('importMedia.mediaText=', lambda s: first(s, R.IMPORT_RULE).media, setter('mediaText'), [('/* only a comment */', False), ('tv, print and', True)]),
+        ('sheet.insertRule(ruleList)', lambda s: s, lambda t, a: t.insertRule(other_rules(a), t.cssRules.length),
+         [('b { top: 0 } @import "x";', True), ('b { top: 0 } @namespace n "u";', True), ('b { top: 0 } @charset "ascii";', True)]),
+        ('mediaRule.insertRule(ruleList)', media, lambda t, a: t.insertRule(other_rules(a), 0),
+         [('b { top: 0 } @font-face { font-family: x }', True), ('b { top: 0 } @import "x";', True)]),
+        ('pageRule.insertRule(ruleList)', page, lambda t, a: t.insertRule(other_rules(a), 0), [('b { top: 0 }', False)]),
     ]
+
+
+def other_rules(text):
+    mode = cssutils.log.raiseExceptions
+    cssutils.log.raiseExceptions = False
+    try:
+        return cssutils.CSSParser(fetcher=fetcher).parseString(text).cssRules
+    finally:
+        cssutils.log.raiseExceptions = mode
 
 
 MUTATORS = M()
@@ -283,7 +309,17 @@ RO = [
     ('CSSUnknownRule', lambda: css.CSSUnknownRule('@foo bar;', readonly=True), [('cssText', '@foo baz;')]),
     ('CSSComment', lambda: css.CSSComment('/* a */', readonly=True), [('cssText', '/* b */')]),
     ('PropertyValue', lambda: css.PropertyValue('1px', readonly=True), [('cssText', '2px')]),
+    ('Value', lambda: css.value.Value('red', readonly=True), [('cssText', 'blue'), ('value', 'blue')]),
+    ('MarginRule', lambda: css.MarginRule(margin='@top-left', style='content: "x"', readonly=True), [('margin', '@top-right'), ('cssText', '@top-right { x: y }'), ('style', 'x: y')]),
+    ('CSSMediaRule.media', lambda: css.CSSMediaRule(mediaText='print', readonly=True), [('media', 'tv')]),
+    ('CSSVariablesDeclaration', lambda: css.CSSVariablesDeclaration(cssText='a: 1', readonly=True),
+     [('cssText', 'b: 2'), ('setVariable', ('b', '2')), ('removeVariable', 'a'), ('__delitem__', 'a'), ('__setitem__', ('a', '2'))]),
 ]
+
+
+def _ro_property():
+    st_ = css.CSSStyleDeclaration(cssText='top: 0', readonly=True)
+    return st_.getProperties()[0]
 
 
 def ro_cases(tier):
